@@ -17,8 +17,8 @@ def nasm(rel, out, extra=(), repo=REPO):
     return out
 
 
-def cc(rel, out, extra=(), repo=REPO):
-    cmd = ["gcc", "-O1", "-c", "-DSAFE_DATA", "-DSAFE_PARAM", "-I" + os.path.join(repo, "include"), "-I" + os.path.join(repo, os.path.dirname(rel))]
+def cc(rel, out, extra=(), repo=REPO, opt="-O1"):
+    cmd = ["gcc", opt, "-c", "-DSAFE_DATA", "-DSAFE_PARAM", "-I" + os.path.join(repo, "include"), "-I" + os.path.join(repo, os.path.dirname(rel))]
     cmd += list(extra) + [os.path.join(repo, rel), "-o", out]
     r = subprocess.run(cmd, capture_output=True, text=True)
     if r.returncode:
@@ -52,14 +52,17 @@ def rolling_diff(workdir, lmax, nseed, seed):
             "cmd": "roll_diff %d %d %d" % (lmax, nseed, seed)}
 
 
-def mh_diff(workdir, iters, seed, repo=REPO):
+def mh_diff(workdir, iters, seed, repo=REPO, opt="-O1"):
+    """opt: optimisation level the library's C files are compiled with (the -O2 run guards the trusted-base
+    assumption that gcc compiles type-punned code the way CBMC reads it: fix 1a3b4e2)"""
     os.makedirs(workdir, exist_ok=True)
     objs = []
     for name in ("mh_sha1", "mh_sha256"):
         d = name
         outer = "sha1_for_mh_sha1.c" if name == "mh_sha1" else "sha256_for_mh_sha256.c"
         for c in ("%s.c" % name, "%s_avx512.c" % name, "%s_block_base.c" % name, "%s_update_base.c" % name, "%s_finalize_base.c" % name, outer):
-            objs.append(cc("%s/%s" % (d, c), os.path.join(workdir, name + "_" + c.replace(".c", ".o")), extra=["-I" + os.path.join(repo, "mh_sha1")]))
+            objs.append(cc("%s/%s" % (d, c), os.path.join(workdir, name + "_" + c.replace(".c", ".o")), extra=["-I" + os.path.join(repo, "mh_sha1")],
+                           repo=repo, opt=opt))
         for a in ("block_sse", "block_avx", "block_avx2", "block_avx512", "multibinary"):
             objs.append(nasm("%s/%s_%s.asm" % (d, name, a), os.path.join(workdir, "%s_%s.o" % (name, a))))
     exe = os.path.join(workdir, "mh_diff")
@@ -74,7 +77,7 @@ def mh_diff(workdir, iters, seed, repo=REPO):
         if tok.startswith("cases="):
             cases = int(tok[6:])
     return {"ok": r.returncode == 0, "text": r.stdout, "calls": cases, "cases": cases, "wall_s": time.time() - t0,
-            "cmd": "mh_diff %d %d" % (iters, seed)}
+            "cmd": "mh_diff %d %d (library C files compiled %s)" % (iters, seed, opt)}
 
 
 def mgr_diff(workdir, ops, maxblk, seed, repo=REPO):
